@@ -51,6 +51,7 @@ struct Observer {
 struct RunCfg {
     std::string base = "BASE";
     bool write_double = false;
+    bool ecl_compat = false;                // IOConfig::setEclCompatibleRST: single precision only, no extra vectors
     bool esmry = false;
     std::uint64_t physics_seed = 1;
     // ministep fractions per report step (index r-1): ascending, last == 1.0; empty => one ministep
@@ -94,7 +95,10 @@ struct World {
 Opm::data::Wells physics(const World& w, int report_step, double t);
 Opm::data::Solution solution(const World& w, int report_step, double t);
 
-// number of active cells etc.
 std::string describe_real_vs_stub();
+
+// directory handling inside the run root: library code always works on relative paths in the cwd
+void enter_dir(const std::string& sub);                       // mkdir -p <root>/<sub> ; chdir there ("" = root)
+void copy_files(const std::string& from_sub, const std::string& to_sub);   // regular files only, relative to the run root
 
 } // namespace srun
